@@ -27,9 +27,13 @@ Ctx == [x |-> S(<<"M1">>),
         sg |-> V("stringer", 0, <<"M1", "b">>, <<>>),
         \* (n = 1) a Stringer that answers differently from call to call: the text that is checked must be the text that is written
         fs |-> V("stringer", 1, <<"M1", "b">>, <<>>),
-        mk |-> M(<<P(S(<<"M2">>), I(1))>>)]
+        mk |-> M(<<P(S(<<"M2">>), I(1))>>),
+        \* a string reached through a pointer (Go: *string, the usual optional field): it reads as the string it points to; the
+        \* harness first prints a nil pointer of the same type once per process (what a value of a type was like the first time
+        \* must not decide how later values of that type are written)
+        ps |-> S(<<"M1">>)]
 
-Sources == << Var(<<"x">>), Var(<<"m", "k">>), Var(<<"l", "0">>), Var(<<"st", "F">>), Var(<<"sg">>), Var(<<"fs">>) >>
+Sources == << Var(<<"x">>), Var(<<"m", "k">>), Var(<<"l", "0">>), Var(<<"st", "F">>), Var(<<"sg">>), Var(<<"fs">>), Var(<<"ps">>) >>
 
 Files == [inc |-> <<T(<<"i:">>), Out(Var(<<"q">>))>>]
 
